@@ -963,7 +963,7 @@ class Message:
             else:
                 next_payload_type = Payload.Type.NONE
 
-            payloads_data += pack('>BBH', next_payload_type, 0, len(payload_data) + 4)
+            payloads_data += pack('>BBH', next_payload_type, 0x80 if payload.critical else 0, len(payload_data) + 4)
             payloads_data += payload_data
         return payloads_data
 
